@@ -239,7 +239,7 @@ def reviewedPanicSites : List (Str × Str × Str × Nat) := [
   (cs!"events.rs", cs!"OutputList::blank_line_remover", cs!"index", 1),   -- matched Ok(..) two lines above; ranges from the event indices; UTF-8 validated in from_reader
   (cs!"events.rs", cs!"SvgElement::try_from", cs!"expect", 2),   -- matched Ok(..) two lines above; ranges from the event indices; UTF-8 validated in from_reader
   (cs!"events.rs", cs!"XmlCharGuard::write", cs!"index", 5),   -- w[0..2] on the items of buf.windows(3), each of length 3
-  (cs!"events.rs", cs!"invalid_char_ref", cs!"index", 2),   -- rest[pos + 2..] after find("&#") (ASCII, so in range and on a boundary); rest[..end] with end from find(';')
+  (cs!"events.rs", cs!"invalid_reference", cs!"index", 2),   -- rest[pos + 1..] after find('&') (ASCII, so in range and on a boundary); rest[..end] with end from find(';')
   (cs!"events.rs", cs!"tagify_events", cs!"index", 2),   -- matched Ok(..) two lines above; ranges from the event indices; UTF-8 validated in from_reader
   (cs!"expression.rs", cs!"eval_expr", cs!"index", 4),   -- slices at positions returned by find on the same string
   (cs!"expression.rs", cs!"eval_vars", cs!"index", 4),   -- slices at positions returned by find on the same string
